@@ -1299,6 +1299,13 @@ class Compiler:
         fallback = identifier("__fallback", id(node))
         body += template("fallback = len(__stream)", fallback=fallback)
 
+        # The error records of a failure that is handled here must not
+        # show up in the message of a later one.
+        errors = identifier("__errors", id(node))
+        body += template(
+            "errors = len(rcontext.get('__error__', ()))", errors=errors
+        )
+
         self._enter_assignment((node.name, ))
         fallback_body = self.visit(node.fallback)
         self._leave_assignment((node.name, ))
@@ -1318,6 +1325,10 @@ class Compiler:
                 name="__exc",
                 body=(error_assignment +
                       template("del __stream[fallback:]", fallback=fallback) +
+                      template(
+                          "del rcontext.get('__error__', [])[errors:]",
+                          errors=errors
+                      ) +
                       fallback_body
                       ),
             )],
